@@ -497,6 +497,10 @@ func buildReport(id string, w *World, opts *RunOpts, results []*FuncResult, all 
 			rep.lines = append(rep.lines, "UNDECIDED: "+r.Con.Func+" not found; its obligations are not checked")
 			continue
 		}
+		if r.Assumed {
+			addAssume("assumed (trusted) contract of " + r.Con.Pkg + ":" + r.Con.Func + " — used at call sites, not proved")
+			continue
+		}
 		for _, e := range r.Errors {
 			undecided = append(undecided, r.Con.Func+": "+e)
 			rep.lines = append(rep.lines, "UNDECIDED: "+r.Con.Func+": "+e)
@@ -565,6 +569,10 @@ func buildReport(id string, w *World, opts *RunOpts, results []*FuncResult, all 
 	}
 	if namedCount == 0 && len(extra.Obs) == 0 && extra.Count == 0 {
 		rep.lines = append(rep.lines, "ENGINE-ERROR: no obligations generated for "+id)
+		rep.Exit = 2
+	}
+	violations += extra.Violations
+	if extra.EngineError {
 		rep.Exit = 2
 	}
 	if violations > 0 && rep.Exit == 0 {
